@@ -7,6 +7,7 @@ import (
 	"time"
 
 	"github.com/arr-ai/arrai/pkg/arraictx"
+	"github.com/arr-ai/arrai/rel"
 	"github.com/arr-ai/arrai/syntax"
 )
 
@@ -70,6 +71,36 @@ func init() {
 			out["kind"] = r.val.Kind()
 			delete(out, "val")
 		}
+		return out
+	})
+}
+
+// ordered: {"src": "..."} -> for a set value, the members in the order it prints them
+// (OrderedValues(), the enumeration behind Format / fu.Repr of generic, union and relation sets).
+func init() {
+	register("ordered", func(in map[string]any) map[string]any {
+		src, _ := in["src"].(string)
+		r, to := safeEval(src, 10*time.Second)
+		out := obs(r, to, false)
+		if out["st"] != "ok" {
+			return out
+		}
+		if s, is := r.val.(interface{ OrderedValues() rel.ValueEnumerator }); is {
+			ord := []any{}
+			func() {
+				defer func() {
+					if p := recover(); p != nil {
+						out["st"] = "panic"
+						out["msg"] = fmt.Sprint(p)
+					}
+				}()
+				for e := s.OrderedValues(); e.MoveNext(); {
+					ord = append(ord, dump(e.Current(), 0))
+				}
+			}()
+			out["ord"] = ord
+		}
+		out["gotype"] = fmt.Sprintf("%T", r.val)
 		return out
 	})
 }
